@@ -928,6 +928,13 @@ impl Vault {
     ///
     /// Returns the number of grants that were revoked.
     pub fn cleanup_expired_grants(&self) -> usize {
+        // While sealed the key material is zeroed: the node key of a secret cannot be derived,
+        // so the expired entries would leave the tracker without their edges being found and
+        // the grants would come back to life with the next unseal. Keep them for the first
+        // sweep after it.
+        if self.seal_guard.is_sealed() {
+            return 0;
+        }
         let expired = self.ttl_tracker.get_expired();
         let mut revoked = 0;
 
